@@ -1132,60 +1132,95 @@ Section FOLLOWP.
   Variable vfy : beacon -> bool.
   Variable chained : bool.
   Variable bk : backend.
+  Variable sk : stack.
 
   (* every stack Put of the retry loop verifies; the raw store grows by exactly those writes *)
   Lemma follow_loop_generic : forall live keep targ upTo fuel attempts st r st' ws,
-    follow_loop chained bk vfy live keep targ upTo fuel st attempts = (r, st', ws) ->
+    follow_loop chained bk sk vfy live keep targ upTo fuel st attempts = (r, st', ws) ->
     sy_gen vfy chained bk false st st' ws.
   Proof.
     intros live keep targ upTo. induction fuel as [|f IH]; intros attempts st r st' ws H.
     - simpl in H. inversion H; subst. apply sy_gen_refl.
     - destruct attempts as [|a rest]; simpl in H; [inversion H; subst; apply sy_gen_refl|].
-      pose proof (sync_loop_generic vfy chained bk SkFollow 0 upTo a st) as G. simpl in G.
-      destruct (done_fired keep targ (sy_ws (sync_loop vfy chained bk SkFollow 0 upTo st a))).
+      pose proof (sync_loop_generic vfy chained bk sk 0 upTo a st) as G. simpl in G.
+      destruct (done_fired keep targ (sy_ws (sync_loop vfy chained bk sk 0 upTo st a))).
       + inversion H; subst. exact G.
-      + destruct (sy_r (sync_loop vfy chained bk SkFollow 0 upTo st a)) as [|e|e].
+      + destruct (sy_r (sync_loop vfy chained bk sk 0 upTo st a)) as [|e|e].
         * inversion H; subst. exact G.
         * destruct live.
-          -- destruct (follow_loop chained bk vfy true keep targ upTo f
-                        (sy_st (sync_loop vfy chained bk SkFollow 0 upTo st a)) rest) as [[r2 st2] ws2] eqn:E.
+          -- destruct (follow_loop chained bk sk vfy true keep targ upTo f
+                        (sy_st (sync_loop vfy chained bk sk 0 upTo st a)) rest) as [[r2 st2] ws2] eqn:E.
              inversion H; subst. eapply sy_gen_trans; [exact G|]. eapply IH. exact E.
           -- inversion H; subst. exact G.
         * inversion H; subst. exact G.
   Qed.
 
+  (* writes in chain order, for a stack whose Put only accepts wlast+1 under an invariant *)
+  Variable Inv : store -> Prop.
+  Hypothesis Inv_put : forall st b st', Inv st -> vfy b = true ->
+    stack_put chained bk sk st b = inr st' ->
+    b_round b = hd st + 1 /\ Inv st' /\ s_base st' = store_form chained b :: s_base st.
+
+  Lemma follow_loop_inorder : forall live keep targ upTo fuel attempts st r st' ws, Inv st ->
+    follow_loop chained bk sk vfy live keep targ upTo fuel st attempts = (r, st', ws) ->
+    appended chained Inv st st' ws.
+  Proof.
+    intros live keep targ upTo. induction fuel as [|f IH]; intros attempts st r st' ws Hc H.
+    - simpl in H. inversion H; subst. apply appended_refl; exact Hc.
+    - destruct attempts as [|a rest]; simpl in H; [inversion H; subst; apply appended_refl; exact Hc|].
+      pose proof (sync_loop_inorder vfy chained bk sk Inv Inv_put upTo a st Hc) as G.
+      simpl in G.
+      destruct (done_fired keep targ (sy_ws (sync_loop vfy chained bk sk 0 upTo st a))).
+      + inversion H; subst. exact G.
+      + destruct (sy_r (sync_loop vfy chained bk sk 0 upTo st a)) as [|e|e].
+        * inversion H; subst. exact G.
+        * destruct live.
+          -- destruct (follow_loop chained bk sk vfy true keep targ upTo f
+                        (sy_st (sync_loop vfy chained bk sk 0 upTo st a)) rest) as [[r2 st2] ws2] eqn:E.
+             inversion H; subst. eapply appended_trans; [exact G|]. eapply IH; [|exact E].
+             destruct G as [_ [_ [_ G4]]]. exact G4.
+          -- inversion H; subst. exact G.
+        * inversion H; subst. exact G.
+  Qed.
+End FOLLOWP.
+
+Section FOLLOWCONV.
+  Variable vfy : beacon -> bool.
+  Variable chained : bool.
+  Variable bk : backend.
+  Variable sk : stack.
   Variable chain : Z -> beacon.
   Hypothesis chain_round : forall r, b_round (chain r) = r.
   Hypothesis chain_vfy : forall r, 1 <= r -> vfy (chain r) = true.
   Hypothesis chain_link : chained = true -> forall r, 1 <= r -> b_prev (chain r) = b_sig (chain (r - 1)).
   Hypothesis vfy_pos : forall b, vfy b = true -> 1 <= b_round b.
   Hypothesis vfy_sig : forall b, vfy b = true -> b_sig b = b_sig (chain (b_round b)).
-  Hypothesis vfy_prev : chained = true ->
+  Hypothesis vfy_prev : sk = SkFollow -> chained = true ->
     forall b, vfy b = true -> b_prev b = b_sig (chain (b_round b - 1)).
-  Hypothesis sig_inj : chained = true ->
+  Hypothesis sig_inj : sk = SkFollow -> chained = true ->
     forall r r', 0 <= r -> 0 <= r' -> b_sig (chain r) = b_sig (chain r') -> r = r'.
 
   (* with the retry branch live: [length fails] failed attempts (tolerated peers only), then an
      attempt that reaches an honest peer; fuel must cover those attempts *)
   Lemma follow_loop_converges : forall upTo fails pre h post rest fuel st,
     (length fails < fuel)%nat -> 1 <= upTo ->
-    Forall (Forall (tolerated vfy chained SkFollow)) fails ->
-    Forall (tolerated vfy chained SkFollow) pre -> honest chain 1 upTo h ->
+    Forall (Forall (tolerated vfy chained sk)) fails ->
+    Forall (tolerated vfy chained sk) pre -> honest chain 1 upTo h ->
     cinv chain st -> hd st < upTo ->
     exists st' ws,
-      follow_loop chained bk vfy true false upTo upTo fuel st (fails ++ (pre ++ h :: post) :: rest)
+      follow_loop chained bk sk vfy true false upTo upTo fuel st (fails ++ (pre ++ h :: post) :: rest)
         = (FwDone, st', ws) /\ cinv chain st' /\ hd st' = upTo.
   Proof.
     intros upTo. induction fails as [|a fails IH]; intros pre h post rest fuel st Hfuel H1 Hf Hpre Hh Hc Hlt.
     - destruct fuel as [|f]; [simpl in Hfuel; lia|]. simpl.
-      pose proof (sync_converges vfy chained bk SkFollow chain chain_round chain_vfy chain_link vfy_pos vfy_sig
-                    (fun _ => vfy_prev) (fun _ => sig_inj) upTo pre h post st Hpre Hh Hc Hlt) as S.
+      pose proof (sync_converges vfy chained bk sk chain chain_round chain_vfy chain_link vfy_pos vfy_sig
+                    vfy_prev sig_inj upTo pre h post st Hpre Hh Hc Hlt) as S.
       simpl in S. destruct S as [S1 [S2 [S3 S4]]].
       rewrite (done_fired_reached upTo _ H1 S4). eauto.
     - destruct fuel as [|f]; [simpl in Hfuel; lia|]. simpl.
       inversion Hf as [|? ? Ha Hfs]; subst.
-      pose proof (sync_tolerated vfy chained bk SkFollow chain vfy_pos vfy_sig
-                    (fun _ => vfy_prev) (fun _ => sig_inj) upTo a st Ha Hc Hlt) as S.
+      pose proof (sync_tolerated vfy chained bk sk chain vfy_pos vfy_sig
+                    vfy_prev sig_inj upTo a st Ha Hc Hlt) as S.
       simpl in S. destruct S as [S1 [[S2 [S3 S4]]|[S2 [S3 S4]]]].
       + rewrite (done_fired_reached upTo _ H1 S4). eauto.
       + rewrite (done_fired_short false upTo _ S4), S2.
@@ -1193,54 +1228,7 @@ Section FOLLOWP.
         destruct (IH pre h post rest f _ Hfuel' H1 Hfs Hpre Hh S1 ltac:(lia)) as [st' [ws [E [C1 C2]]]].
         rewrite E. eauto.
   Qed.
-
-End FOLLOWP.
-
-Section FOLLOWORD.
-  Variable vfy : beacon -> bool.
-  Variable chained : bool.
-  Variable bk : backend.
-  Variable chain : Z -> beacon.
-  Hypothesis vfy_pos : forall b, vfy b = true -> 1 <= b_round b.
-  Hypothesis vfy_sig : forall b, vfy b = true -> b_sig b = b_sig (chain (b_round b)).
-  Hypothesis vfy_prev : chained = true ->
-    forall b, vfy b = true -> b_prev b = b_sig (chain (b_round b - 1)).
-  Hypothesis sig_inj : chained = true ->
-    forall r r', 0 <= r -> 0 <= r' -> b_sig (chain r) = b_sig (chain r') -> r = r'.
-
-  (* on the chained scheme the follow stack writes in chain order although it has no appendStore *)
-  Lemma follow_put_ordered : chained = true -> forall st b st', cinv chain st -> vfy b = true ->
-    stack_put chained bk SkFollow st b = inr st' ->
-    b_round b = hd st + 1 /\ cinv chain st' /\ s_base st' = store_form chained b :: s_base st.
-  Proof.
-    intros Hch st b st' Hc Hv Hp.
-    exact (cinv_put vfy chained bk SkFollow chain vfy_pos vfy_sig (fun _ => vfy_prev) (fun _ => sig_inj)
-             st b st' (or_intror Hch) Hc Hv Hp).
-  Qed.
-
-  Lemma follow_loop_inorder : chained = true ->
-    forall live keep targ upTo fuel attempts st r st' ws, cinv chain st ->
-    follow_loop chained bk vfy live keep targ upTo fuel st attempts = (r, st', ws) ->
-    appended chained (cinv chain) st st' ws.
-  Proof.
-    intros Hch live keep targ upTo. induction fuel as [|f IH]; intros attempts st r st' ws Hc H.
-    - simpl in H. inversion H; subst. apply appended_refl; exact Hc.
-    - destruct attempts as [|a rest]; simpl in H; [inversion H; subst; apply appended_refl; exact Hc|].
-      pose proof (sync_loop_inorder vfy chained bk SkFollow (cinv chain) (follow_put_ordered Hch) upTo a st Hc) as G.
-      simpl in G.
-      destruct (done_fired keep targ (sy_ws (sync_loop vfy chained bk SkFollow 0 upTo st a))).
-      + inversion H; subst. exact G.
-      + destruct (sy_r (sync_loop vfy chained bk SkFollow 0 upTo st a)) as [|e|e].
-        * inversion H; subst. exact G.
-        * destruct live.
-          -- destruct (follow_loop chained bk vfy true keep targ upTo f
-                        (sy_st (sync_loop vfy chained bk SkFollow 0 upTo st a)) rest) as [[r2 st2] ws2] eqn:E.
-             inversion H; subst. eapply appended_trans; [exact G|]. eapply IH; [|exact E].
-             destruct G as [_ [_ [_ G4]]]. exact G4.
-          -- inversion H; subst. exact G.
-        * inversion H; subst. exact G.
-  Qed.
-End FOLLOWORD.
+End FOLLOWCONV.
 
 (* ---------------------------------------------------------------------------------------- *)
 (* Packaging for the property statements                                                      *)
